@@ -39,9 +39,11 @@ static const famdef FAM[] = {
   {"centred", K_STD, 0.0, 0.3},            /* 15 */
   {"spread1e3", K_STD, 1.0, 1e3},          /* 16 */
   {"negmean", K_STD, -0.8, 0.3},           /* 17 negative level scale                           */
+  {"sum2e-4", K_STD, 0.0, 0.3},            /* 18 raw column sum 2e-4: well above the 1e-6 flush of MatrixColAverage, below any coarser threshold */
 };
 #define NFAM ((int)(sizeof FAM / sizeof FAM[0]))
 #define F_TINYSUM 14
+#define F_SMALLSUM 18
 
 static double X[MAXR][MAXC];
 static unsigned char MASK[MAXR][MAXC];
@@ -54,7 +56,7 @@ static void gen_col(int fam, int k, int j, int rows) {
   for (int i = 0; i < rows; i++) if (!MASK[i][j]) { ld d = vg_val(k, i, j) - mg; sg += d * d; }
   sg = np > 1 ? sqrtl(sg / (np - 1)) : 1;
   if (sg == 0) sg = 1;
-  ld mean = f->mean; if (fam == F_TINYSUM && np) mean = 3e-7L / np;
+  ld mean = f->mean; if (fam == F_TINYSUM && np) mean = 3e-7L / np; if (fam == F_SMALLSUM && np) mean = 2e-4L / np;
   for (int i = 0; i < rows; i++) {
     if (MASK[i][j]) { X[i][j] = MISS; continue; }
     if (f->kind == K_CONST) { X[i][j] = f->mean; continue; }
